@@ -10,7 +10,7 @@
 From Coq Require Import List String ZArith NArith Bool Lia.
 Import ListNotations.
 From DV Require Import Model.Tree Model.Tables Model.Link Model.Restore Model.Clone
-     Proofs.LinkProofs Proofs.LinkChunk Proofs.RestoreProofs Proofs.RelocProofs Proofs.EditProofs Proofs.CloneProofs
+     Proofs.LinkProofs Proofs.LinkChunk Proofs.LinkLocal Proofs.RestoreProofs Proofs.RelocProofs Proofs.EditProofs Proofs.CloneProofs
      Gen.Universe Gen.CloneTbl Gen.RestTbl.
 Local Open Scope string_scope.
 Local Open Scope list_scope.
@@ -60,6 +60,15 @@ Theorem C02_separator_becomes_spacing :
   (sget (l_before s') nb = Some sp \/ sget (l_before s') nb = Some SEmptyLine) /\
   l_decs s' = l_decs s /\ l_panic s' = false.
 Proof. exact separator_becomes_spacing. Qed.
+
+(* whatever the layout: a comment is attached to the decoration point directly before or directly
+   after it (only comments, line breaks and bad spans in between) -- it can only belong to the
+   element that ends just before it or the one that starts just after it, never to a third *)
+Theorem C02_comment_stays_with_a_neighbour :
+  forall fs,
+  (forall c d ind a, nth_error fs c = Some (FCom d ind a) -> a = None) ->
+  forall c d ind j, nth_error (l_frags (link fs)) c = Some (FCom d ind (Some j)) -> adjacent (l_frags (link fs)) c j.
+Proof. exact link_attaches_locally. Qed.
 
 (* (b) editing --------------------------------------------------------------------------------- *)
 
@@ -134,6 +143,7 @@ Proof. vm_compute. repeat split; reflexivity. Qed.
 Print Assumptions C02_trailing_comment_goes_to_end.
 Print Assumptions C02_leading_comments_go_to_start.
 Print Assumptions C02_separator_becomes_spacing.
+Print Assumptions C02_comment_stays_with_a_neighbour.
 Print Assumptions C02_edit_commutes_with_rendering.
 Print Assumptions C02_segment_depends_on_subtree_only.
 Print Assumptions C02_segment_relocatable.
